@@ -227,6 +227,72 @@ pub fn run(tier: Tier) -> i32 {
             }
         }
     });
+    // several instructions in one build: every ordered pair of forms of the same mnemonic, and a
+    // lacking form after an unrelated instruction — the verdict must not depend on what came before
+    let n_pairs = AtomicU64::new(0);
+    let mut by_mnem: BTreeMap<&str, Vec<&Form>> = BTreeMap::new();
+    for fm in &forms {
+        by_mnem.entry(fm.variants[0].mnem).or_default().push(fm);
+    }
+    let pair_work: Vec<(&DeviceRow, &Form, &Form)> = devs
+        .iter()
+        .flat_map(|d| {
+            let mut v = vec![];
+            for (_, fs) in by_mnem.iter() {
+                if fs.len() < 2 {
+                    continue;
+                }
+                for a in fs.iter() {
+                    for b in fs.iter() {
+                        v.push((d, *a, *b));
+                    }
+                }
+            }
+            let nop = forms.iter().find(|f| f.name == "nop").unwrap();
+            for fm in forms.iter() {
+                v.push((d, nop, fm));
+                v.push((d, fm, nop));
+            }
+            v
+        })
+        .collect();
+    pair_work.par_iter().for_each(|(d, f1, f2)| {
+        let avr8l = d.flags.contains("Avr8l");
+        let (c1, c2) = (&f1.variants[0], &f2.variants[f2.variants.len() - 1]);
+        let gone = removed_by(f1, &d.flags).or(removed_by(f2, &d.flags));
+        let src = format!(".device {}\n{}\n{}\n", d.name, c1.text(), c2.text());
+        let o = sut::build_str(&src);
+        evals.fetch_add(1, Ordering::Relaxed);
+        n_pairs.fetch_add(1, Ordering::Relaxed);
+        let bytes = |c: &ICase| -> Option<Vec<u8>> {
+            if avr8l && (c.mnem == "lds" || c.mnem == "sts") {
+                icase::expect_bytes(Core::Reduced, c)
+            } else {
+                nodev.get(&c.text()).cloned()
+            }
+        };
+        let mut bad: Option<(String, String)> = None;
+        match (gone, &o) {
+            (Some(flag), Outcome::Ok(b)) => bad = Some((format!("C13/ungated-in-sequence/flag={}/forms={}+{}/device={}", flag, f1.name, f2.name, d.name), format!("{} lacks one of `{}` / `{}` (flag {}) but the two-instruction program assembles to {}", d.name, f1.name, f2.name, flag, sut::hex(&b.code)))),
+            (None, Outcome::Ok(b)) => {
+                if let (Some(mut w1), Some(w2)) = (bytes(c1), bytes(c2)) {
+                    w1.extend(w2);
+                    if b.code != w1 {
+                        bad = Some((format!("C13/changed-bytes-in-sequence/forms={}+{}/device={}", f1.name, f2.name, d.name), format!("`{}` then `{}` on {} assembles to {} instead of {}", c1.text(), c2.text(), d.name, sut::hex(&b.code), sut::hex(&w1))));
+                    }
+                }
+            }
+            (None, Outcome::Err(e)) => {
+                if bytes(c1).is_some() && bytes(c2).is_some() {
+                    bad = Some((format!("C13/over-rejected-in-sequence/forms={}+{}/device={}", f1.name, f2.name, d.name), format!("{} has both `{}` and `{}` but the program is rejected: {}", d.name, f1.name, f2.name, e)));
+                }
+            }
+            _ => {}
+        }
+        if let Some((key, what)) = bad {
+            rep.violation(&key, || what, || json!({"kind": "build_str", "source": src, "observed": o.to_json()}));
+        }
+    });
     rep.guard(absent.load(Ordering::Relaxed) > 500 && present.load(Ordering::Relaxed) > 3000, "need both absent and present combinations");
     rep.sample(|| json!({"source": format!(".device {}\n{}", devs[0].name, forms[3].variants[0].text()), "device_flags": devs[0].flags, "form": forms[3].name}));
     rep.sample(|| { let d = devs.iter().find(|d| d.flags.contains("NoMul")).unwrap(); json!({"source": format!(".device {}\nmuls r16, r17", d.name), "expected": "err (NoMul)"}) });
@@ -235,12 +301,13 @@ pub fn run(tier: Tier) -> i32 {
     let coverage = cov(json!({
         "evaluations": evals.load(Ordering::Relaxed),
         "distinct_nontrivial": work.len(),
-        "rule": "every row of the device table x every instruction form (mnemonic, and addressing mode for ld/st/ldd/std/lpm/elpm) x operand variants; distinct_nontrivial = distinct (device, form) pairs, each of which is a device-selected build with a non-empty expected verdict",
+        "rule": "(+ per device every ordered pair of forms of the same mnemonic and every form before/after nop, in one build) every row of the device table x every instruction form (mnemonic, and addressing mode for ld/st/ldd/std/lpm/elpm) x operand variants; distinct_nontrivial = distinct (device, form) pairs, each of which is a device-selected build with a non-empty expected verdict",
         "exhaustive": true,
         "devices": devs.len(),
         "forms": forms.len(),
         "absent_combinations_checked": absent.load(Ordering::Relaxed),
         "present_combinations_checked": present.load(Ordering::Relaxed),
+        "two_instruction_programs": n_pairs.load(Ordering::Relaxed),
         "forms_removed_per_flag": effective,
         "caps_hit": [],
         "trusted_base": ["harness devspec (flag -> forms, from the flag documentation)", "isa reference for reduced-core lds/sts"],
